@@ -23,7 +23,7 @@ RULE = ("keys: full product 5 types x 2 encodings x 2 private formats x 2 public
         "length type on 3 keys per type must change whitespace only. distinct = distinct keys / option tuples")
 ASSUMPTIONS = ["cryptography's key loaders and public_numbers()", "keys for convert are built by the harness with ec.derive_private_key"]
 BOUNDS = {"quick": "N = 5000 scalars per curve + table; 256 seeds per Ed curve; 40x3 key generations; 288 formatting tuples x 15 keys",
-          "thorough": "N = 50000 scalars per curve + table"}
+          "thorough": "N = 200000 scalars per curve + table; PEM forms x 8 column counts"}
 
 TYPES = ["secp256r1", "secp384r1", "secp521r1", "ed25519", "ed448"]
 CURVES = {"p256": (ec.SECP256R1(), 32), "p384": (ec.SECP384R1(), 48), "p521": (ec.SECP521R1(), 66)}
@@ -243,7 +243,7 @@ def run_convobj(case, agg):
 
 
 def scalar_cases(tier):
-    n = 5000 if tier == "quick" else 50000
+    n = 5000 if tier == "quick" else 200000
     out = []
     table = json.load(open(os.path.join(os.path.dirname(os.path.dirname(__file__)), "data", "ec_scalars.json")))
     for c in CURVES:
